@@ -98,6 +98,19 @@ def viaspread(n):      # f(n) = n == 0 ? 0 : spread(f)([n-1]) — the back edge 
     return (f"{enc(n)} (ㄱ ((ㄱㅇㄱ ㄴㄱ ㄷㅎㄷ) ㅁㄹㅎㄴ) ((ㄱㅇ) ㅁㅂㅎㄴ) ㅎㄴ) {COND} ㅎㄷ ㅎ) ㅎㄴ", "0")
 
 
+def viafoldl(n):       # f(n) = n == 0 ? 0 : foldl(λ(a, x). f(x), 0, [n−1]) — the back edge is the *last application* of a fold, whose result
+    # ㅅㄹ hands back unevaluated (seeded change S05l forced every application inside the fold's frame)
+    return (f"{enc(n)} (ㄱ ((ㄴㅇㄱ ㄴㅇ ㅎㄴ ㅎ) ㄱ ((ㄱㅇㄱ ㄴㄱ ㄷㅎㄷ) ㅁㄹㅎㄴ) ㅅㄹㅎㄹ) {COND} ㅎㄷ ㅎ) ㅎㄴ", "0")
+
+
+def viafoldr(n):       # the same as a right fold: foldr([n−1], 0, λ(x, a). f(x))
+    return (f"{enc(n)} (ㄱ (((ㄱㅇㄱ ㄴㄱ ㄷㅎㄷ) ㅁㄹㅎㄴ) ㄱ (ㄱㅇㄱ ㄴㅇ ㅎㄴ ㅎ) ㅅㄹㅎㄹ) {COND} ㅎㄷ ㅎ) ㅎㄴ", "0")
+
+
+def viafoldl0(n):      # without an initial value: foldl(λ(a, x). f(x), [0, n−1])
+    return (f"{enc(n)} (ㄱ ((ㄴㅇㄱ ㄴㅇ ㅎㄴ ㅎ) (ㄱ (ㄱㅇㄱ ㄴㄱ ㄷㅎㄷ) ㅁㄹㅎㄷ) ㅅㄹㅎㄷ) {COND} ㅎㄷ ㅎ) ㅎㄴ", "0")
+
+
 def nontail(n):        # s(n) = n == 0 ? 0 : n + s(n-1)   (frames grow with n)
     return (f"{enc(n)} ㄱ (ㄱㅇㄱ ((ㄱㅇㄱ ㄴㄱ ㄷㅎㄷ) ㄱㅇ ㅎㄴ) ㄷㅎㄷ) {COND} ㅎㄷ ㅎ ㅎㄴ", str(n * (n + 1) // 2))
 
@@ -114,7 +127,8 @@ TAIL = {'countdown': countdown, 'accum': accum, 'mutual': mutual, 'viabool': via
         'viahelper': viahelper, 'viaid': viaid, 'viathunk': viathunk, 'viatry': viatry,
         'boolflag': boolflag, 'nilstate': nilstate, 'carried': carried, 'carried-fn': carried_fn,
         'toggle': toggle, 'clamp': clamp, 'vianullary': vianullary,
-        'viapipe': viapipe, 'viapipe1': viapipe1, 'viaspread': viaspread}
+        'viapipe': viapipe, 'viapipe1': viapipe1, 'viaspread': viaspread,
+        'viafoldl': viafoldl, 'viafoldr': viafoldr, 'viafoldl0': viafoldl0}
 
 
 @monitor('c05_value')
